@@ -50,9 +50,18 @@ theorem dest_spec (p : Packet) (hxr : ∀ v, p = .xr v → ∀ b ∈ v.blocks, b
 theorem compound_dest (p : Packet) (ps : List Packet) : cdst (p :: ps) = p.dest := rfl
 theorem compound_dest_empty : cdst [] = [] := rfl
 
-/-- the result is unchanged by an encode/decode round trip, wherever the round trip returns the packet -/
-theorem dest_roundtrip (p q : Packet) (h : (p.enc >>= decKind p.kind) = .ok q) (hq : q = p) : q.dest = p.dest := by
-  rw [hq]
+theorem quant_dest (p : Packet) : (C02.quant p).dest = p.dest := by
+  cases p <;> rfl
+
+/-- the result is the same for a packet built in memory and for the same packet after an encode/decode round trip
+through rtcp.Marshal / rtcp.Unmarshal (for the packet types whose round trip is proved in C02) -/
+theorem dest_roundtrip (ps : List Packet) (hne : ps ≠ []) (h : ∀ p ∈ ps, C02.DWF p) :
+    ∃ qs, (uenc ps >>= udec) = .ok qs ∧ qs.map Packet.dest = ps.map Packet.dest := by
+  refine ⟨ps.map C02.quant, C02.rt_datagram ps hne h, ?_⟩
+  rw [List.map_map]
+  apply List.map_congr_left
+  intro p _
+  exact quant_dest p
 
 example : specDest (.sr { ssrc := 7, reports := [{ ssrc := 1 }, { ssrc := 2 }] }) = [1, 2, 7] := by decide
 
